@@ -100,3 +100,4 @@ V["jwe"].append({"name": "rfc7520/5.3 PBES2", "token": m.group(1).replace(" ", "
                  "key": octk(b"entrap_o\xe2\x80\x93peter_long\xe2\x80\x93credit_tun"), "plaintext_prefix": '{"keys":'})
 json.dump(V, open("/verif/refjose/vectors.json", "w"), indent=0)
 print({k: len(v) for k, v in V.items()})
+# RFC 8037 A.3 (JWK thumbprint of the Ed25519 example key) -- added by hand, reproduced by refjose
